@@ -205,6 +205,14 @@ func wXor(a, b *Term, w int) *Term {
 		if i == 1 {
 			x, m = b, a
 		}
+		// x ^ (P·x): the same form when the other operand of the swap is zero (x ^ 0 = x): P ? 0 : x
+		if pf, inner := predTimesAtom(m); inner != nil && TAtom(inner).Equal(x) {
+			if lo, hi := pf.Bounds(); lo.Sign() >= 0 && hi.Cmp(bigOne) <= 0 {
+				if r := Ite(pf, TInt(0), x); r != nil {
+					return r
+				}
+			}
+		}
 		if pf, inner := predTimesAtom(m); inner != nil && inner.Kind == IWOp && inner.Op == "xor" && len(inner.Args) == 2 {
 			if lo, hi := pf.Bounds(); lo.Sign() >= 0 && hi.Cmp(bigOne) <= 0 {
 				var other *Term
@@ -274,6 +282,11 @@ func wShr(a, s *Term, w int) *Term {
 	}
 	if win, ok := a.window(n, w-n); ok {
 		return win
+	}
+	// the top byte of a word: byte n/8 of the value (the conversion to uint8 that usually follows is the identity
+	// on it, so this is where the byte is recognised)
+	if n%8 == 0 && w-n == 8 && inRange(a, w) {
+		return ByteOf(a, n/8)
 	}
 	return WOp(w, "shr", a, s)
 }
